@@ -19,7 +19,7 @@ PROPERTY = "C14"
 
 # CODE VARIANT FLAGS — which variant of the code the model is compared with.
 # 1 = rich 9.10.0 as found, 0 = repaired (see /verif/pending_fixes/C14-*.diff).
-RGB_VALUEERROR = 1  # F9: Color.parse("rgb(1,,2)") lets int()'s ValueError escape (Model/Totality.lean `vErr`)
+RGB_VALUEERROR = 0  # F9: Color.parse("rgb(1,,2)") lets int()'s ValueError escape (Model/Totality.lean `vErr`)
 
 DOCUMENTED = {"ColorParseError", "StyleSyntaxError", "MarkupError", "MissingStyle"}
 
@@ -31,7 +31,7 @@ NOTDEC = ["²", "①", "x"]  # str.isdigit but not \d / int(); a letter
 CASE = ["K", "İ", "R", "É"]  # KELVIN SIGN lowers to "k"; I WITH DOT lowers to two characters
 CTRL = ["\x00", "\x08", "\r", "\x1b", "\x7f", "\x85", "​", "́", "\U0001f63d", "\U0010ffff", "﻿"]
 
-COLOR_BODY = [",", " ", "1", "256", "٣", "²", "\x1c", "　", ")"]
+COLOR_BODY = [",", " ", "1", "255", "256", "٣", "²", "\x1c", "　", ")"]
 COLOR_PRE = ["", "rgb(", "color(", "#", " rgb(", "RGB(", "rgb (", "Color("]
 RGB_IN = [",", " ", "1", "255", "256", "٣", "\x1c"]
 STYLE_WORDS = ["on", "not", "link", "bold", "b", "red", "rgb(1,,2)", "rgb(1,2,3)", "x", "none", "NOT", "Bold", "٣", "default", "color(256)", "#12345", "uu", "blacK", "ON", "LINK"]
@@ -355,7 +355,7 @@ def run(ctx):
     for k in range((2 if quick else 3) + 1):
         for t in itertools.product(MARKUP_TAGS, repeat=k):
             markup_case("".join(t), "tags")
-    for _ in range(2500 if quick else 60000):
+    for _ in range(5000 if quick else 60000):
         s = "".join(rng.choice(MARKUP_TAGS) if rng.random() < 0.7 else rand_unicode(rng, rng.randint(1, 4)) for _ in range(rng.randint(1, 7)))
         if surrogate_free(s):
             markup_case(s, "random")
@@ -442,7 +442,7 @@ def run(ctx):
 
     # ---- 7. trees of built-in renderables x widths -------------------------------------------------------
     n_workers = 12
-    per = 160 if quick else 6000
+    per = 400 if quick else 6000
     jobs = [(ctx.seed, i, per, 3 if i % 3 else 4) for i in range(n_workers)]
     with multiprocessing.get_context("fork").Pool(n_workers) as pool_:
         results = pool_.map(_layout_worker, jobs)
